@@ -125,7 +125,7 @@ func measure(ci *clusters.ClusterInfo, name string) string {
 	return fmt.Sprint(n)
 }
 
-var cfgCompared, candidatesUnobservable int64
+var cfgCompared, candidatesUnobservable, chainProbes, chainProbesDenied int64
 
 func observe(gw *bed.Gateway) *Obs {
 	o := &Obs{Resolution: map[string]string{}, Clusters: map[string]*CObs{}}
@@ -221,6 +221,16 @@ func observe(gw *bed.Gateway) *Obs {
 			}
 			sort.Strings(eps)
 			co.Routing[p.name] = fmt.Sprintf("flowcontrol=%s log=%v candidates=%v limiter={%s}", pk.FlowControlName(), pk.EnableLog(), eps, pk.FlowControl().String())
+		}
+		// the EFFECT of the request-path feature gates, not only their values: a request through the real handler chain
+		// (DenyAllRequests => 429, CloseConnectionWhenIdle => "Connection: close"); every endpoint is marked unhealthy above,
+		// so an admitted request ends the same way in both gateways
+		tok := gw.Tokens.Add(&user.DefaultInfo{Name: "probe", Groups: []string{"system:authenticated"}})
+		rec := gw.Serve(bed.NewRequest("GET", c, "/api/v1/namespaces/ns/pods", tok, "", nil))
+		co.Routing["request through the handler chain"] = fmt.Sprintf("status=%d connection=%q", rec.Code, rec.Header().Get("Connection"))
+		atomic.AddInt64(&chainProbes, 1)
+		if rec.Code == 429 {
+			atomic.AddInt64(&chainProbesDenied, 1)
 		}
 		o.Clusters[c] = co
 	}
@@ -1201,6 +1211,9 @@ func TestCheck(t *testing.T) {
 		r.Require(r.Counter("requeues") >= int64(nh/4), "too few requeues")
 		r.Require(r.Counter("redeliveries") >= int64(nh/4), "too few re-deliveries")
 		r.Require(r.Counter("clusters_compared") >= int64(nh), "too few clusters compared")
+		r.Set("chain_probes", atomic.LoadInt64(&chainProbes))
+		r.Set("chain_probes_denied_by_gate", atomic.LoadInt64(&chainProbesDenied))
+		r.Require(atomic.LoadInt64(&chainProbes) >= int64(nh) && atomic.LoadInt64(&chainProbesDenied) >= int64(nh/20), "too few requests through the handler chain (effect of the feature gates)")
 		r.Require(atomic.LoadInt64(&candidatesUnobservable) == 0, "the candidate endpoints of a policy could not be listed (an unreachable endpoint kept reporting ready)")
 		r.Require(atomic.LoadInt64(&cfgCompared) >= int64(nh), "the recorded schema configuration (Config()) could not be read from the limiter")
 		r.Require(r.Counter("resync_deliveries") >= int64(nh), "too few informer resync deliveries")
